@@ -284,6 +284,28 @@ theorem bindersL_simple (pre : List Stmt) (h : ∀ x ∈ pre, IsSimple x) : bind
   | cons s r ih =>
     simp [bindersL, binders_simple (h s (by simp)), ih (fun x hx => h x (by simp [hx]))]
 
+/-! ### the blocks directly inside a compound statement, and the scopes it opens -/
+
+def subBlocks : Stmt → List (List Stmt)
+  | .ite _ _ b es e => b :: (es.map (·.2) ++ (match e with | some l => [l] | none => []))
+  | .while_ _ _ _ b => [b]
+  | .doWhile _ _ _ b => [b]
+  | .switch_ _ _ _ cs => cs.map (·.2.2)
+  | _ => []
+
+/-- scope ids a statement opens for `break` -/
+def scopeB : Stmt → List Nat
+  | .while_ _ sid _ _ => [sid]
+  | .doWhile _ sid _ _ => [sid]
+  | .switch_ _ sid _ _ => [sid]
+  | _ => []
+
+/-- scope ids a statement opens for `continue` -/
+def scopeC : Stmt → List Nat
+  | .while_ _ sid _ _ => [sid]
+  | .doWhile _ sid _ _ => [sid]
+  | _ => []
+
 /-! ### at most one `default` per switch -/
 mutual
 def OneDefault : Stmt → Prop
